@@ -8,7 +8,7 @@ Spec:   `infoset toks`  = document element a namespace-aware XML processor reads
         events denote (independent reading);  `saxTree calls` = the tree SAX calls denote.
 Inputs: `document q attrs kids` = START q, ATTR*, content, END q  (`Content` = forest).
 -/
-import XsdataModel.Proofs.EventsTree
+import XsdataModel.Proofs.Shape
 
 namespace Props.C03
 open Py Xs.Ns Xs.Sax Xs.Writer Spec.XmlNs Spec.EventTree Spec.Hyps
@@ -124,8 +124,9 @@ theorem write_correct_fails : ¬ WriteCorrect := by
 NCName prefixes, declarable URIs) and every well-nested event sequence whose
 names and values are lexically sound (`contentOK`: NCName local names,
 declarable namespaces, no attribute in the user's default namespace, XML
-characters only, no carriage return in text) and that stays inside
-`treeWriterDefined`, the native writer raises no exception and its output is a
+characters only, no carriage return in text) and structurally sound
+(`shapeOK`: no text chunk directly after another DATA event, no QName with a
+namespace in a DATA event that is not the first content event), the native writer raises no exception and its output is a
 namespace-well-formed document: every prefix used on an element or attribute is
 declared in scope and bound to the namespace the handler asked for, attribute
 names are distinct after expansion, the `xml`/`xmlns` rules hold. -/
@@ -133,9 +134,9 @@ theorem write_wellformed_partial (cfg : Cfg) (hcfg : plainCfg cfg = true)
     (m : List (Pfx × Str)) (hm : userMapOK tblNsEnv m = true)
     (q : Str) (attrs : List (Str × Val)) (kids : Content)
     (hok : contentOK tblNsEnv (userDefault m) (.child q attrs kids .nil) = true)
-    (hdef : treeWriterDefined tblNsEnv cfg m q attrs kids = true) :
+    (hshape : shapeOK true false kids = true) :
     ∃ toks, nativeWrite tblNsEnv cfg m (document q attrs kids) = .ok toks ∧ nsWellFormed toks = true := by
-  obtain ⟨cs, hcs⟩ := Option.isSome_iff_exists.mp hdef
+  obtain ⟨cs, hcs⟩ := Proofs.Shape.docCalls_defined tblNsEnv (Proofs.MapInv.envOK_sound _ tables_ok) cfg hcfg m hm q attrs kids hok hshape
   obtain ⟨toks, node, h1, h2, _⟩ := document_main tblNsEnv tables_ok cfg hcfg m hm q attrs kids hok cs hcs
   exact ⟨toks, h1, by simp [nsWellFormed, h2]⟩
 
@@ -147,11 +148,11 @@ theorem write_denotes_sax_tree_partial (cfg : Cfg) (hcfg : plainCfg cfg = true)
     (m : List (Pfx × Str)) (hm : userMapOK tblNsEnv m = true)
     (q : Str) (attrs : List (Str × Val)) (kids : Content)
     (hok : contentOK tblNsEnv (userDefault m) (.child q attrs kids .nil) = true)
-    (hdef : treeWriterDefined tblNsEnv cfg m q attrs kids = true) :
+    (hshape : shapeOK true false kids = true) :
     ∃ toks calls t, nativeWrite tblNsEnv cfg m (document q attrs kids) = .ok toks
       ∧ handlerRun tblNsEnv cfg true m (document q attrs kids) = (calls, none)
       ∧ infoset toks = some t ∧ saxTree calls = some t := by
-  obtain ⟨cs, hcs⟩ := Option.isSome_iff_exists.mp hdef
+  obtain ⟨cs, hcs⟩ := Proofs.Shape.docCalls_defined tblNsEnv (Proofs.MapInv.envOK_sound _ tables_ok) cfg hcfg m hm q attrs kids hok hshape
   obtain ⟨toks, node, h1, h2, h3⟩ := document_main tblNsEnv tables_ok cfg hcfg m hm q attrs kids hok cs hcs
   have hind : cfg.indent = none := by
     simp only [plainCfg, Bool.and_eq_true, Option.isNone_iff_eq_none] at hcfg
@@ -168,10 +169,10 @@ theorem write_infoset_partial (cfg : Cfg) (hcfg : plainCfg cfg = true)
     (q : Str) (attrs : List (Str × Val)) (kids : Content)
     (hok : contentOK tblNsEnv (userDefault m) (.child q attrs kids .nil) = true)
     (hplain : plainContent (.child q attrs kids .nil) = true)
-    (hdef : treeWriterDefined tblNsEnv cfg m q attrs kids = true) :
+    (hshape : shapeOK true false kids = true) :
     ∃ toks t, nativeWrite tblNsEnv cfg m (document q attrs kids) = .ok toks
       ∧ infoset toks = some t ∧ eventsTree tblNsEnv cfg (document q attrs kids) = some t := by
-  obtain ⟨cs, hcs⟩ := Option.isSome_iff_exists.mp hdef
+  obtain ⟨cs, hcs⟩ := Proofs.Shape.docCalls_defined tblNsEnv (Proofs.MapInv.envOK_sound _ tables_ok) cfg hcfg m hm q attrs kids hok hshape
   obtain ⟨toks, node, h1, h2, h3⟩ := document_main tblNsEnv tables_ok cfg hcfg m hm q attrs kids hok cs hcs
   obtain ⟨node', h4, h5⟩ := eventsTree_document tblNsEnv cfg hcfg m q attrs kids hplain cs hcs
   rw [h3] at h5
@@ -191,7 +192,7 @@ example :
     plainCfg {} = true ∧ userMapOK tblNsEnv m = true
     ∧ contentOK tblNsEnv (userDefault m) (.child (inA ['R']) [(['i', 'd'], str ['1'])] kids .nil) = true
     ∧ plainContent (.child (inA ['R']) [(['i', 'd'], str ['1'])] kids .nil) = true
-    ∧ treeWriterDefined tblNsEnv {} m (inA ['R']) [(['i', 'd'], str ['1'])] kids = true := by
+    ∧ shapeOK true false kids = true := by
   decide +kernel
 
 /-- … and by one with QName values (xsi:type, a QName in text) and generated prefixes -/
@@ -202,8 +203,19 @@ example :
     let kids : Content := .data (.atom (.qname (inA ['v']))) .nil
     userMapOK tblNsEnv m = true
     ∧ contentOK tblNsEnv (userDefault m) (.child (inB ['R']) attrs kids .nil) = true
-    ∧ treeWriterDefined tblNsEnv {} m (inB ['R']) attrs kids = true := by
+    ∧ shapeOK true false kids = true := by
   decide +kernel
+
+/-- **tree_writer_defined**: the input-level conditions put a document inside
+`treeWriterDefined` (no exception, no tail text, no late prefix) -/
+theorem tree_writer_defined (cfg : Cfg) (hcfg : plainCfg cfg = true)
+    (m : List (Pfx × Str)) (hm : userMapOK tblNsEnv m = true)
+    (q : Str) (attrs : List (Str × Val)) (kids : Content)
+    (hok : contentOK tblNsEnv (userDefault m) (.child q attrs kids .nil) = true)
+    (hshape : shapeOK true false kids = true) :
+    treeWriterDefined tblNsEnv cfg m q attrs kids = true := by
+  obtain ⟨cs, hcs⟩ := Proofs.Shape.docCalls_defined tblNsEnv (Proofs.MapInv.envOK_sound _ tables_ok) cfg hcfg m hm q attrs kids hok hshape
+  simp [treeWriterDefined, hcs]
 
 /-! ## The SAX calls both writers receive (native and lxml share `EventHandler`) -/
 
